@@ -13,7 +13,7 @@ import (
 // TLS_FALLBACK_SCSV below the server's highest enabled version is refused.
 
 type c41Case struct {
-	Kind   string  `json:"kind"` // "nego" | "scsv" | "rawnego"
+	Kind   string  `json:"kind"` // "nego" | "scsv" | "rawnego" | "xrule"
 	Srv    srvSpec `json:"srv"`
 	Cli    cliSpec `json:"cli"`
 	Resume bool    `json:"resume,omitempty"` // nego: second connection through a shared client session cache
@@ -21,6 +21,9 @@ type c41Case struct {
 	HelloVers uint16 `json:"hello_vers,omitempty"`
 	Resum     string `json:"resum,omitempty"`    // "", "ticket", "sessionid"
 	ScsvPos   string `json:"scsv_pos,omitempty"` // "first" | "last" | "absent"
+	// xrule: second connection under another rule than the first (c41xrule.go)
+	X    *c41X    `json:"x,omitempty"`
+	orig *c41Case // set on the derived view through which the second connection of an xrule case is judged
 }
 
 var c41RuleNames = map[string]string{"": "plain.test", "A+": "aplus.test", "A": "a.test", "B": "b.test", "C": "c.test", "C+chacha": "chacha.test", "A+chacha": "other.test"}
@@ -151,7 +154,7 @@ func c41Key(c *c41Case) string {
 func c41CheckWire(r *vkit.Run, c *c41Case, m *negoModel, f *srvFlight, res *pairResult, phase string) (reported bool) {
 	s, cl := &c.Srv, &c.Cli
 	wit := func(extra map[string]interface{}) interface{} {
-		w := map[string]interface{}{"case": c, "phase": phase, "server_hello": f,
+		w := map[string]interface{}{"case": c.witnessCase(), "phase": phase, "server_hello": f,
 			"client_err": errStr(res.CliErr), "server_err": errStr(res.SrvErr), "model_usable": sortedKeys(m.Usable), "model_version": m.Vers, "model_why": m.Why}
 		for k, v := range extra {
 			w[k] = v
@@ -166,15 +169,15 @@ func c41CheckWire(r *vkit.Run, c *c41Case, m *negoModel, f *srvFlight, res *pair
 		helloVers = vTLS12
 	}
 	if f.Vers < s.minV() || f.Vers > s.maxV() {
-		r.Violation("version:outside-server-range", fmt.Sprintf("ServerHello version %s outside the server's range [%s,%s]", versName(f.Vers), versName(s.minV()), versName(s.maxV())), wit(nil))
+		r.Violation(c.xsig(f, "version:outside-server-range"), fmt.Sprintf("ServerHello version %s outside the server's range [%s,%s]", versName(f.Vers), versName(s.minV()), versName(s.maxV())), wit(nil))
 		reported = true
 	}
 	if f.Vers > helloVers {
-		r.Violation("version:above-client", fmt.Sprintf("ServerHello version %s above client_version %s", versName(f.Vers), versName(helloVers)), wit(nil))
+		r.Violation(c.xsig(f, "version:above-client"), fmt.Sprintf("ServerHello version %s above client_version %s", versName(f.Vers), versName(helloVers)), wit(nil))
 		reported = true
 	}
 	if !versionAllowedByGrade(s, cl.SNI, f.Vers) {
-		r.Violation("version:refused-by-rule-grade", fmt.Sprintf("ServerHello version %s not allowed by the grade of the rule for %q", versName(f.Vers), cl.SNI), wit(nil))
+		r.Violation(c.xsig(f, "version:refused-by-rule-grade"), fmt.Sprintf("ServerHello version %s not allowed by the grade of the rule for %q", versName(f.Vers), cl.SNI), wit(nil))
 		reported = true
 	}
 	want := helloVers
@@ -182,7 +185,7 @@ func c41CheckWire(r *vkit.Run, c *c41Case, m *negoModel, f *srvFlight, res *pair
 		want = s.maxV()
 	}
 	if !reported && f.Vers != want {
-		r.Violation("version:not-highest-mutual", fmt.Sprintf("ServerHello version %s, highest mutual version is %s", versName(f.Vers), versName(want)), wit(nil))
+		r.Violation(c.xsig(f, "version:not-highest-mutual"), fmt.Sprintf("ServerHello version %s, highest mutual version is %s", versName(f.Vers), versName(want)), wit(nil))
 		reported = true
 	}
 	// suite: offered by the client and enabled by the server for this rule at the chosen version
@@ -194,7 +197,7 @@ func c41CheckWire(r *vkit.Run, c *c41Case, m *negoModel, f *srvFlight, res *pair
 		}
 	}
 	if !offered {
-		r.Violation("suite:not-offered-by-client", fmt.Sprintf("server selected %s which the client did not offer", suiteName(f.Suite)), wit(nil))
+		r.Violation(c.xsig(f, "suite:not-offered-by-client"), fmt.Sprintf("server selected %s which the client did not offer", suiteName(f.Suite)), wit(nil))
 		reported = true
 	} else if !suiteEnabled(s, cl.SNI, f.Suite, f.Vers, cl.Curves, true) {
 		why := "not-enabled"
@@ -215,7 +218,7 @@ func c41CheckWire(r *vkit.Run, c *c41Case, m *negoModel, f *srvFlight, res *pair
 		default:
 			why = "ecdhe-without-common-curve"
 		}
-		r.Violation("suite:"+why, fmt.Sprintf("server selected %s at %s which its configuration does not enable for %q (%s)", suiteName(f.Suite), versName(f.Vers), cl.SNI, why), wit(nil))
+		r.Violation(c.xsig(f, "suite:"+why), fmt.Sprintf("server selected %s at %s which its configuration does not enable for %q (%s)", suiteName(f.Suite), versName(f.Vers), cl.SNI, why), wit(nil))
 		reported = true
 	}
 	// ALPN
@@ -233,7 +236,7 @@ func c41CheckWire(r *vkit.Run, c *c41Case, m *negoModel, f *srvFlight, res *pair
 				// shape: h2 was mutually selected, then replaced
 				sig = "alpn:h2-rewritten-to-http1.1" + strings.TrimPrefix(sig, "alpn:selected")
 			}
-			r.Violation(sig, fmt.Sprintf("ServerHello selects ALPN %q; client offered %v, server list for %q is %v", f.ALPN, cl.ALPN, cl.SNI, protos), wit(nil))
+			r.Violation(c.xsig(f, sig), fmt.Sprintf("ServerHello selects ALPN %q; client offered %v, server list for %q is %v", f.ALPN, cl.ALPN, cl.SNI, protos), wit(nil))
 			reported = true
 		}
 	}
@@ -244,7 +247,7 @@ func c41CheckConn(r *vkit.Run, c *c41Case, m *negoModel, res *pairResult, phase 
 	cl := &c.Cli
 	f := res.Flight
 	wit := func() interface{} {
-		return map[string]interface{}{"case": c, "phase": phase, "server_hello": f,
+		return map[string]interface{}{"case": c.witnessCase(), "phase": phase, "server_hello": f,
 			"client_err": errStr(res.CliErr), "server_err": errStr(res.SrvErr), "model_ok": m.OK, "model_why": m.Why,
 			"model_usable": sortedKeys(m.Usable), "model_version": m.Vers,
 			"client_state": map[string]interface{}{"version": res.Cli.Version, "suite": res.Cli.CipherSuite, "alpn": res.Cli.NegotiatedProtocol, "resumed": res.Cli.DidResume},
@@ -256,7 +259,7 @@ func c41CheckConn(r *vkit.Run, c *c41Case, m *negoModel, res *pairResult, phase 
 	}
 	reported := c41CheckWire(r, c, m, f, res, phase)
 	if f.GotHello && !m.OK && (m.Why == "client max below server min" || m.Why == "version refused by rule grade" || m.Why == "no common suite") && !reported {
-		r.Violation("negotiation:server-hello-without-common-parameters", "server answered with a ServerHello although the configurations share no parameters: "+m.Why, wit())
+		r.Violation(c.xsig(f, "negotiation:server-hello-without-common-parameters"), "server answered with a ServerHello although the configurations share no parameters: "+m.Why, wit())
 		reported = true
 	}
 	if res.ok() {
@@ -265,7 +268,7 @@ func c41CheckConn(r *vkit.Run, c *c41Case, m *negoModel, res *pairResult, phase 
 			r.Count("handshakes_resumed", 1)
 		}
 		if !m.OK && !reported {
-			r.Violation("negotiation:completed-without-common-parameters", "handshake completed although the model finds no common parameters: "+m.Why, wit())
+			r.Violation(c.xsig(f, "negotiation:completed-without-common-parameters"), "handshake completed although the model finds no common parameters: "+m.Why, wit())
 			return
 		}
 		if res.Cli.Version != res.Srv.Version || res.Srv.Version != f.Vers {
@@ -574,7 +577,7 @@ func c41ScsvCases() []c41Case {
 }
 
 func c41(r *vkit.Run) {
-	r.SetRule("rawnego: the same server axes x client_version{ssl3,1.0,1.1,1.2} with hand-written ClientHellos (ServerHello parameters only). nego: full product cert{rsa,ecdsa} x 10 server [min,max] ranges (0 = default) x 9 client ranges (TLS1.0..1.3) x 7 rules (none, A+, A, B, C, C+chacha, A+chacha) with N seeded draws per cell of server suite list/order/PreferServer/priorities/curves/ALPN/tickets and client suite subset/curves/ALPN/verification/resumption; model computed from the two configurations alone (server ranges with min>max excluded; success required only where the model is exact); 64 KiB each way. scsv: exhaustive product cert x 8 server ranges x 5 rules x client_version{ssl3,1.0,1.1,1.2} x {no session, valid ticket, valid session id} x SCSV{first,last,absent}. Non-trivial = nego: handshake completed; scsv: SCSV present and client_version below the server's highest version. Distinct = canonical string of both configurations")
+	r.SetRule("rawnego: the same server axes x client_version{ssl3,1.0,1.1,1.2} with hand-written ClientHellos (ServerHello parameters only). nego: full product cert{rsa,ecdsa} x 10 server [min,max] ranges (0 = default) x 9 client ranges (TLS1.0..1.3) x 7 rules (none, A+, A, B, C, C+chacha, A+chacha) with N seeded draws per cell of server suite list/order/PreferServer/priorities/curves/ALPN/tickets and client suite subset/curves/ALPN/verification/resumption; model computed from the two configurations alone (server ranges with min>max excluded; success required only where the model is exact); 64 KiB each way. xrule: full product 7x7 ordered rule pairs (first connection's rule -> second connection's rule, diagonal = control) x rule selection {SNI->SNI, SNI->default(no SNI), default->SNI, same name with the rule replaced} x {ticket via standard client (completed handshakes, 2 KiB each way), ticket in a hand-written ClientHello, session id in a hand-written ClientHello (ServerHello flight only)} x suite family the first handshake is steered to {chacha20, RC4, other; only families the first rule enables, chacha20 and RC4 drawn twice} with N seeded draws of certificate type, versions, suite lists/order, curves, ALPN; the second connection offers the first one's session and is judged by the same model computed for the second connection's rule, resumed or not. scsv: exhaustive product cert x 8 server ranges x 5 rules x client_version{ssl3,1.0,1.1,1.2} x {no session, valid ticket, valid session id} x SCSV{first,last,absent}. Non-trivial = nego: handshake completed; xrule: session established and second connection attempted; scsv: SCSV present and client_version below the server's highest version. Distinct = canonical string of both configurations")
 	getPKI()
 	if r.Replay != "" {
 		var w struct {
@@ -589,6 +592,8 @@ func c41(r *vkit.Run) {
 			c41Scsv(r, &w.Case)
 		} else if w.Case.Kind == "rawnego" {
 			c41RawNego(r, &w.Case)
+		} else if w.Case.Kind == "xrule" && w.Case.X != nil {
+			c41XRule(r, &w.Case, r.Rng("replay"))
 		} else {
 			c41Nego(r, &w.Case, r.Rng("replay"))
 		}
@@ -652,6 +657,8 @@ func c41(r *vkit.Run) {
 		}
 		c41RawNego(r, &c)
 	})
+	// second connections under another rule than the first
+	c41XAll(r)
 	if r.Counter("raw_server_hello_ssl3") == 0 || r.Counter("raw_refused_as_modelled") == 0 {
 		r.Inconclusive("hand-written hellos did not reach an SSLv3 ServerHello and a refusal")
 	}
